@@ -8,6 +8,10 @@ package main
 //	resource claim declared=<L> supplied=<k>   header claiming L bytes, k bytes delivered, then EOF
 //	resource nest depth=<d> op=<decode|string|pretty|serialize|find>
 //	                                           d grouped AVPs nested inside each other
+//	resource retain msgs=<n> per=<k> g=<goroutines>
+//	                                           n messages of k AVPs no dictionary knows (all codes
+//	                                           distinct) are decoded by g goroutines and dropped;
+//	                                           what stays allocated afterwards is measured
 
 import (
 	"bytes"
@@ -19,6 +23,7 @@ import (
 	"runtime/debug"
 	"strconv"
 	"strings"
+	"sync"
 	"time"
 
 	"github.com/fiorix/go-diameter/v4/diam"
@@ -100,7 +105,73 @@ func childMain(args []string) {
 			cls = classifyReadErr(err)
 		}
 		fmt.Printf("err=%s in=%d out=%d bytes=%d\n", cls, len(msg), out, after.TotalAlloc-before.TotalAlloc)
+	case "retain":
+		n, _ := strconv.Atoi(args[1])
+		per, _ := strconv.Atoi(args[2])
+		g, _ := strconv.Atoi(args[3])
+		if g < 1 {
+			g = 1
+		}
+		debug.SetGCPercent(100)
+		mk := func(i int) []byte {
+			var body []byte
+			for j := 0; j < per; j++ {
+				code := uint32(3000000 + i*per + j)
+				if j%3 == 1 { // vendor-specific unknowns too
+					body = append(body, rawAVPVendor(code, 0x80, uint32(40000+i%5000), []byte{1, 2, 3, 4})...)
+				} else {
+					body = append(body, rawAVP(code, 0, 0, 12, []byte{1, 2, 3, 4}, true)...)
+				}
+			}
+			return append(rawHeader(20+len(body), 0x80, 280, uint32(i%3)*4, uint32(i), 1), body...)
+		}
+		// warm up: one message, so that one-time initialisation is not counted
+		if _, err := diam.ReadMessage(bytes.NewReader(mk(0)), dict.Default); err != nil {
+			fmt.Printf("err=%s\n", classifyReadErr(err))
+			return
+		}
+		runtime.GC()
+		runtime.ReadMemStats(&before)
+		total, bad := 0, 0
+		var mu sync.Mutex
+		var wg sync.WaitGroup
+		for w := 0; w < g; w++ {
+			wg.Add(1)
+			go func(w int) {
+				defer wg.Done()
+				for i := 1 + w; i <= n; i += g {
+					b := mk(i)
+					m, err := diam.ReadMessage(bytes.NewReader(b), dict.Default)
+					mu.Lock()
+					total += len(b)
+					if err != nil || len(m.AVP) != per {
+						bad++
+					}
+					mu.Unlock()
+				}
+			}(w)
+		}
+		wg.Wait()
+		runtime.GC()
+		runtime.GC()
+		runtime.ReadMemStats(&after)
+		ret := int64(after.HeapAlloc) - int64(before.HeapAlloc)
+		if ret < 0 {
+			ret = 0
+		}
+		fmt.Printf("err=ok bad=%d in=%d retained=%d\n", bad, total, ret)
 	}
+}
+
+func rawAVPVendor(code uint32, flags uint8, vendor uint32, payload []byte) []byte {
+	l := 12 + len(payload)
+	b := []byte{byte(code >> 24), byte(code >> 16), byte(code >> 8), byte(code), flags, byte(l >> 16), byte(l >> 8), byte(l),
+		byte(vendor >> 24), byte(vendor >> 16), byte(vendor >> 8), byte(vendor)}
+	b = append(b, payload...)
+	for len(b)%4 != 0 {
+		b = append(b, 0)
+	}
+	return b
 }
 
 func runChild(timeout time.Duration, args ...string) string {
@@ -148,6 +219,11 @@ func execResource(toks []string) string {
 		d, _ := kvGet(toks, "depth")
 		op, _ := kvGet(toks, "op")
 		return runChild(90*time.Second, "nest", d, op)
+	case "retain":
+		n, _ := kvGet(toks, "msgs")
+		k, _ := kvGet(toks, "per")
+		g, _ := kvGet(toks, "g")
+		return runChild(120*time.Second, "retain", n, k, g)
 	}
 	return "badinput"
 }
@@ -176,6 +252,10 @@ func genResource(r *RNG, n int, op string, emit func(string)) {
 				emit(fmt.Sprintf("resource nest depth=%d op=%s", d, o))
 			}
 		}
+	case "retain":
+		for _, c := range [][3]int{{2000, 10, 1}, {20000, 10, 1}, {4000, 50, 4}, {20000, 10, 8}, {1000 + r.Intn(3000), 1 + r.Intn(40), 1 + r.Intn(8)}} {
+			emit(fmt.Sprintf("resource retain msgs=%d per=%d g=%d", c[0], c[1], c[2]))
+		}
 	case "nestdeep": // as deep as the 24-bit message length allows
 		for _, d := range []int{20000, 200000, 2000000} {
 			emit(fmt.Sprintf("resource nest depth=%d op=decode", d))
@@ -191,5 +271,6 @@ func genResource(r *RNG, n int, op string, emit func(string)) {
 func init() {
 	executors["resource claim"] = execResource
 	executors["resource nest"] = execResource
+	executors["resource retain"] = execResource
 	generators["resource"] = genResource
 }
